@@ -10,10 +10,9 @@ ids="$*"
 for id in $ids; do
   p=/verif/seeded/$id/patch.diff
   prop=$(echo "$id" | cut -c1-3)
-  if ! git -C /repo apply --check "$p" 2>/dev/null; then echo "$id $prop patch-does-not-apply-to-current-head"; continue; fi
-  git -C /repo apply "$p"
+  if ! git -C /repo apply --3way "$p" 2>/dev/null; then git -C /repo reset -q --hard HEAD; echo "$id $prop patch-does-not-apply-to-current-head"; continue; fi
   out=$(./check "$prop" --tier quick 2>&1); code=$?
-  git -C /repo checkout -- . ; git -C /repo clean -fdq crates 2>/dev/null
+  git -C /repo reset -q --hard HEAD; git -C /repo clean -fdq crates 2>/dev/null
   case $code in
     1) echo "$id $prop detected $(echo "$out" | grep -m1 -o 'clause=[^ ]*')";;
     0) echo "$id $prop MISSED";;
